@@ -14,15 +14,19 @@ namespace Bolt.C04Tree
 open Bolt Bolt.BTree
 
 /-- the rebalance-phase invariant implies the in-transaction invariant -/
-theorem inTxR_inTx (t : N) (h : InTxR t) : InTx t := by
-  sorry
+theorem inTxR_inTx (t : N) (h : InTxR t) : InTx t :=
+  RebL.inTx_of_inTxR t h
 
 /-- the trees that Put/Delete produce from a committed tree satisfy the rebalance-phase
     invariant (separators are never changed by Put/Delete, and in a committed tree the first
     separator of every node equals the node's own separator in its parent) -/
 theorem applyOps_inTxR (fuel : Nat) (t t1 : N) (ops : List Op) (hc : Committed t)
     (hk : ∀ o ∈ ops, o.ok) (hf : depth t ≤ fuel) (h : applyOps fuel t ops = some t1) : InTxR t1 := by
-  sorry
+  obtain ⟨t1', h1, h2, _, _⟩ := applyOps_refines fuel t ops (committed_inTx t hc) hk hf
+  rw [h] at h1
+  cases h1
+  exact RebL.inTxR_of_inTx_tight t1 h2
+    (RebL.applyOps_tight ops t t1 h (RebL.tight_of_committed t true none hc.1 (fun _ hl => by cases hl)))
 
 /-- one iteration of the rebalance loop, at ANY node: stays in the domain, keeps the
     invariant and the content.
@@ -31,21 +35,32 @@ theorem applyOps_inTxR (fuel : Nat) (t t1 : N) (ops : List Op) (hc : Committed t
     Counterexample in `Bolt/Lemmas/BTreeReb.lean`.) -/
 theorem rebalanceAt_refines (th : Nat) (t : N) (path : List Nat) (n : N) (hi : InTxR t)
     (hp : nodeAt path t = some n) :
-    ∃ t', rebalanceAt th t path = some t' ∧ InTxR t' ∧ flatten t' = flatten t ∧ depth t' ≤ depth t := by
-  sorry
+    ∃ t', rebalanceAt th t path = some t' ∧ InTxR t' ∧ flatten t' = flatten t ∧ depth t' ≤ depth t :=
+  RebL.rebalanceAt_ok th t path n hi hp
 
 /-- **any visiting order** of the node map keeps the invariant and the content -/
 theorem rebalanceAll_refines (th fuel : Nat) (t : N) (order : List Nat) (hi : InTxR t) :
     ∃ t', rebalanceAll th fuel t order = some t' ∧ InTxR t' ∧ flatten t' = flatten t ∧ depth t' ≤ depth t := by
-  sorry
+  induction order generalizing t with
+  | nil => exact ⟨t, rfl, hi, rfl, Nat.le_refl _⟩
+  | cons pg rest ih =>
+    rw [rebalanceAll]
+    cases hf : findMat pg fuel t with
+    | none => exact ih t hi
+    | some path =>
+      obtain ⟨n, hn⟩ := RebL.findMat_nodeAt hf
+      obtain ⟨t1, h1, h2, h3, h4⟩ := rebalanceAt_refines th t path n hi hn.1
+      obtain ⟨t', h5, h6, h7, h8⟩ := ih t1 h2
+      simp only [h1]
+      exact ⟨t', h5, h6, h7.trans h3, Nat.le_trans h8 h4⟩
 
 /-- when the order covers every node of the map (page ids being distinct), no node is left
     unbalanced — in particular no emptied node survives -/
 theorem rebalanceAll_settles (th fuel : Nat) (t t' : N) (order : List Nat) (hi : InTxR t)
     (hn : (pgids t).Nodup) (hf : depth t ≤ fuel)
     (hc : ∀ pg ∈ matPgids fuel t, pg ∈ order)
-    (hr : rebalanceAll th fuel t order = some t') : anyUnb t' = false := by
-  sorry
+    (hr : rebalanceAll th fuel t order = some t') : anyUnb t' = false :=
+  RebL.settles th fuel t t' order hi hn hf hc hr
 
 
 end Bolt.C04Tree
